@@ -712,8 +712,12 @@ def _parse_stream(fname: str, adapters: dict) -> Any:
         variants = [{"frame_metadata": NONE}, {"frame_metadata": Sort("ctxvar")}]
         yields = Sort("anyval")
         modifies = ["frame_metadata"]
+        # between two frames the consumer runs the previous frame's iterable: the decoder's tables, remembered terms and the
+        # adapter's open graph are whatever that left behind (havoced at the loop head)
         loops = {0: LoopSpec(invariant=lambda e: {"decoder-not-replaced": True},
-                             after_each=lambda e: _per_frame(e), modifies=["frame_metadata"])}
+                             after_each=lambda e: _per_frame(e),
+                             modifies=["frame_metadata", "decoder.adapter._graph_id", "decoder.repeated_terms", "decoder.names",
+                                       "decoder.prefixes", "decoder.datatypes"])}
 
         def requires(e):
             lp = e.options.items[1]
@@ -745,6 +749,11 @@ def _parse_stream(fname: str, adapters: dict) -> Any:
                 is_md = isinstance(cur, _Ref) and cur == md._ref
                 is_empty = isinstance(cur, _Ref) and e.st.obj(cur).kind == "pydict" and e.st.obj(cur).get("keys") == ()
                 out["metadata-of-this-frame-is-current"] = And(Implies(nonempty, is_md), Implies(Not(nonempty), is_empty))
+            if e.decoder.adapter._obj().has("_graph_id"):
+                # C07: the loop over the frames itself leaves the adapter's open-graph state alone (only rows change it,
+                # when the frame's iterable is consumed): a graph may span frames
+                g1, g0 = e.decoder.adapter._graph_id, e.old.decoder.adapter._graph_id
+                out["open-graph-survives-the-frame-boundary"] = And(Iff(is_none(g1), is_none(g0)), opt_val(g1) == opt_val(g0))
             phys = e.options.items[0].physical_type
             acls = e.decoder.adapter.cls.name
             out["adapter-of-the-physical-type"] = adapters[acls](phys)
